@@ -31,7 +31,8 @@ EXPLANATION = "see DESIGN.md C02"
 
 
 def run(run):
-    from props._std import run_bounded
+    from props._std import run_bounded, run_lean
 
     run.prove(PROVE)
+    run_lean(run)
     run_bounded(run, "C02")
